@@ -1396,6 +1396,10 @@ def target_worker_thread(host: str, port: int, shared_aconf: AuditConf) -> Tuple
     except Exception:
         ret = -1
         string_output = "An exception occurred while scanning %s:%d:\n%s" % (host, port, str(traceback.format_exc()))
+    finally:
+        # Delete this thread's copy of the algorithm databases.  A scan edits its copy in place (Terrapin warnings, key and modulus size notes), and worker threads are re-used for subsequent targets, which would otherwise inherit those edits.
+        SSH1_KexDB.thread_exit()
+        SSH2_KexDB.thread_exit()
 
     return ret, string_output
 
